@@ -56,6 +56,7 @@ const (
 type myStmt struct {
 	query   string // translated to the evaluator's dialect
 	nParams int
+	types   []byte // parameter types of the last execution that sent them
 }
 
 type myConn struct {
@@ -459,8 +460,7 @@ func (db *PgDB) emitMyExtras() {
 	db.stmtCount++
 }
 
-// types bound at first execute are remembered per statement by real servers; the driver
-// used here always sends them.
+// types bound at an execution are remembered per statement, as real servers do.
 func (db *PgDB) decodeMyParams(st *myStmt, b []byte) ([][]byte, []int16, error) {
 	n := st.nParams
 	if n == 0 {
@@ -473,14 +473,21 @@ func (db *PgDB) decodeMyParams(st *myStmt, b []byte) ([][]byte, []int16, error) 
 	nulls := b[:nb]
 	bound := b[nb]
 	b = b[nb+1:]
+	var types []byte
 	if bound != 1 {
-		return nil, nil, fmt.Errorf("parameter types were not sent")
+		// as real servers do: the types bound at an earlier execution of the statement stay in force
+		if st.types == nil {
+			return nil, nil, fmt.Errorf("parameter types were not sent")
+		}
+		types = st.types
+	} else {
+		if len(b) < 2*n {
+			return nil, nil, fmt.Errorf("parameter types too short")
+		}
+		types = b[:2*n]
+		st.types = append([]byte{}, types...)
+		b = b[2*n:]
 	}
-	if len(b) < 2*n {
-		return nil, nil, fmt.Errorf("parameter types too short")
-	}
-	types := b[:2*n]
-	b = b[2*n:]
 	params := make([][]byte, n)
 	formats := make([]int16, n)
 	for i := 0; i < n; i++ {
